@@ -502,10 +502,8 @@ def run_reducer(case):
             elif name == "dt":
                 ndt = DTS[op[1] % len(DTS)]
                 if ignored and duration > 0:
-                    # resizing a record whose storage does not exist is C13's subject
-                    # (DESIGN.md section 6 #3): excluded here by construction
-                    stats["dt_skipped"] = stats.get("dt_skipped", 0) + 1
-                    continue
+                    # resizing a record whose storage does not exist (raised before /repo a826126)
+                    stats["dt_nostorage"] = 1
                 keep = bool(op[2])
                 with impl(what):
                     red.dt = ndt
@@ -537,7 +535,7 @@ def run_reducer(case):
     nt_hist = nt_hist or _epoch_nt(model)
     nt_read = maxn < 2 or stats.get("view_off", 0) >= 1
     for k in ("view_on", "view_off", "view_on_pad", "view_off_pad", "view_amb", "view_hetero", "dump",
-              "wrapped", "shape_change", "dtchange", "dt_skipped"):
+              "wrapped", "shape_change", "dtchange", "dt_nostorage"):
         if stats.get(k):
             cls.append(k)
     if ever_cleared_mid:
@@ -717,8 +715,8 @@ ASSUMPTIONS = [
     "record size N is read back from data_.recordsz after construction / dt change (checked against the documented "
     "formula for dyadic dt only; the formula on non-representable ratios is C13's subject)",
     "a dt change is always followed by clear(): RecordReducer.dt documents a reset, RecordTensor.dt documents that "
-    "entries are kept, the property states neither; dt changes on a reducer whose storage does not exist and whose "
-    "duration is > 0 are not generated (C13 fix #3 region)",
+    "entries are kept, the property states neither; dt changes on a reducer whose storage does not exist "
+    "(before the first fold / after clear(keepshape=False)) are generated too (class dt_nostorage)",
     "view times are generated inside [-tolerance, (N-1)*dt] on exact rationals (documented valid range); "
     "tolerance < dt/2",
     "the duration setter of RecordReducer is not exercised (C14's subject)",
